@@ -389,8 +389,38 @@ func hashProp(p string) uint64 {
 	return h
 }
 
+// tableSource: every cell of the C05 mode table, then (thorough) random histories.
+type tableSource struct {
+	seed  uint64
+	extra *presetSource
+}
+
+func (s *tableSource) world(i int) *check.World {
+	if i < gen.TableSize() {
+		return gen.TableWorld(s.seed, i)
+	}
+	if s.extra == nil {
+		return nil
+	}
+	return s.extra.world(i - gen.TableSize())
+}
+func (s *tableSource) exhaustive() bool { return s.extra == nil }
+func (s *tableSource) describe() string {
+	d := fmt.Sprintf("all %d cells of the mode table CI x Update option x UPDATE_SNAPS x entry point x entry state x Clean x obsolete items, one two-lifetime world each (the cell runs as a fresh process with exactly that environment)", gen.TableSize())
+	if s.extra != nil {
+		d += "; followed by random histories drawn under all environments and Update options"
+	}
+	return d
+}
+
 func newSource(prop string, seed uint64, tier string) source {
 	switch prop {
+	case "C05":
+		ts := &tableSource{seed: seed}
+		if tier == "thorough" {
+			ts.extra = &presetSource{prop: prop, seed: seed, free: gen.Preset(prop, false, nil), adv: gen.Preset(prop, true, nil)}
+		}
+		return ts
 	case "C01", "C02", "C03", "C04", "C06", "C07", "C08", "C09", "C10", "C17", "C19", "C20", "C12":
 		return &presetSource{prop: prop, seed: seed, free: gen.Preset(prop, false, nil), adv: gen.Preset(prop, true, nil)}
 	}
